@@ -40,7 +40,7 @@ func (t *term) size() int {
 }
 
 var leaves8 = []string{"Normal", "Break", "Continue", "Return", "RetV"}
-var unary8 = []string{"Bind", "BindRecv", "Delay", "Loop", "While", "For", "ForNC"}
+var unary8 = []string{"Bind", "BindRecv", "Delay", "Loop", "While", "For", "ForNC", "Breakable", "Continuable"}
 
 func enumTerms(n int, memo map[int][]*term) []*term {
 	if r, ok := memo[n]; ok {
@@ -100,6 +100,16 @@ func silent(t *term) int {
 		return 0
 	case "DelayQ":
 		return silent(t.A)
+	case "Breakable", "Continuable":
+		a := silent(t.A)
+		bit := 2
+		if t.K == "Continuable" {
+			bit = 4
+		}
+		if a&bit != 0 {
+			a = a&^bit | 1
+		}
+		return a
 	case "Combine":
 		a := silent(t.A)
 		r := a &^ 1
@@ -161,6 +171,10 @@ func build8(t *term, c *rt.Ctx) seq.Seq[int] {
 		return seq.Delay[int](func() seq.Seq[int] { return build8(t.A, c) })
 	case "Combine":
 		return seq.Combine[int](build8(t.A, c), build8(t.B, c))
+	case "Breakable":
+		return seq.Breakable[int](build8(t.A, c))
+	case "Continuable":
+		return seq.Continuable[int](build8(t.A, c))
 	case "Loop":
 		return seq.Loop[int](build8(t.A, c))
 	case "While":
@@ -271,6 +285,18 @@ func exec8(t *term, c *rt.Ctx, k *consumer8, recv *int) sig8 {
 			return s
 		}
 		return exec8(t.B, c, k, recv)
+	case "Breakable": // a switch statement: break ends it
+		s := exec8(t.A, c, k, recv)
+		if s.k == 1 {
+			return sig8{0, 0}
+		}
+		return s
+	case "Continuable": // a loop body in front of a yielding post statement: continue ends the body only
+		s := exec8(t.A, c, k, recv)
+		if s.k == 2 {
+			return sig8{0, 0}
+		}
+		return s
 	case "Loop", "While", "For", "ForNC":
 		for first := true; ; first = false {
 			if !first && (t.K == "For" || t.K == "ForNC") {
